@@ -31,7 +31,7 @@ HIDDEN_F = [0.0, 1e20, -9999.0, 3.5, -1e-300]
 HIDDEN_I = [0, -9999, 77, 123456]
 
 
-NP_INT = {"DInt": numpy.int64, "DInt32": numpy.int32, "DInt16": numpy.int16, "DInt8": numpy.int8, "DUInt": numpy.uint64}
+NP_INT = {"DInt": numpy.int64, "DInt32": numpy.int32, "DInt16": numpy.int16, "DInt8": numpy.int8, "DUInt": numpy.uint64, "DUInt8": numpy.uint8}
 NP_FLOAT = {"DFloat": numpy.float64, "DFloat32": numpy.float32}
 
 
@@ -40,10 +40,12 @@ def gen_array(rnd, shape, dt, fuzzy, mask_p, hostile=False, big=False, fine=Fals
     big: values near the top of the narrow type's range; fine: float64 values that need more than 24 bits."""
     L = int(numpy.prod(shape)) if shape else 1
     if dt in NP_INT:
-        top = {"DInt": 6, "DInt32": 2 ** 30, "DInt16": 30000, "DInt8": 100, "DUInt": 12}[dt]
+        top = {"DInt": 6, "DInt32": 2 ** 30, "DInt16": 30000, "DInt8": 100, "DUInt": 12, "DUInt8": 6}[dt]
         vals = [rnd.randint(-6, 6) if not big or rnd.random() < 0.3 else rnd.choice([-1, 1]) * (top - rnd.randint(0, 5)) for _ in range(L)]
         if dt == "DUInt":      # what the NetCDF reader hands over for DataType "Positive Integer": unsigned 64-bit cells
             vals = [rnd.randint(0, 12) for _ in range(L)]
+        if dt == "DUInt8":     # a narrow unsigned raster (small values: nothing here may legitimately wrap around)
+            vals = [rnd.randint(0, 6) for _ in range(L)]
     elif fuzzy:
         vals = [rnd.randint(-8, 8) / 8.0 for _ in range(L)]
     else:
@@ -58,7 +60,7 @@ def gen_array(rnd, shape, dt, fuzzy, mask_p, hostile=False, big=False, fine=Fals
     if all(mask) and L and mask_p < 1.0:
         mask[rnd.randrange(L)] = False
     isint = dt in NP_INT
-    hid = [(rnd.choice([0, 7, 999999] if dt == "DUInt" else [h for h in HIDDEN_I if abs(h) < 120] if dt == "DInt8" else (HIDDEN_I[:3] if isint else HIDDEN_F)) if m else v)
+    hid = [(rnd.choice([0, 7, 999999] if dt == "DUInt" else [0, 7, 200] if dt == "DUInt8" else [h for h in HIDDEN_I if abs(h) < 120] if dt == "DInt8" else (HIDDEN_I[:3] if isint else HIDDEN_F)) if m else v)
            for v, m in zip(vals, mask)]
     npdt = NP_INT[dt] if isint else NP_FLOAT[dt]
     a = numpy.ma.array(numpy.array(hid, dtype=npdt).reshape(shape), mask=numpy.array(mask).reshape(shape))
@@ -92,7 +94,7 @@ def distinct(rnd, k, lo=-6, hi=6):
     return out
 
 
-def gen_case(rnd, cname, prop, shape=None, mask_p=None):
+def gen_case(rnd, cname, prop, shape=None, mask_p=None, force_dt=None, zero_weight=False):
     hostile = prop in ("C04", "C13")
     fuzzy = cname in cc.FUZZY_IN
     forced_mask = mask_p
@@ -119,7 +121,9 @@ def gen_case(rnd, cname, prop, shape=None, mask_p=None):
         else:
             dts.append(rnd.choice(["DInt", "DFloat"]))
     big = fine = False
-    if not fuzzy and "DInt" in dts and rnd.random() < 0.15:
+    if force_dt is not None:
+        dts = [force_dt] * n                                       # every input of this element type
+    elif not fuzzy and "DInt" in dts and rnd.random() < 0.15:
         dts = ["DUInt" if d == "DInt" else d for d in dts]        # "Positive Integer" layers
     elif prop in ("C07", "C02") and cname in ARITH and n >= 2 and rnd.random() < 0.35:
         # narrow element types next to a 64-bit input: numpy promotes to the wide type, so no overflow is legitimate
@@ -177,6 +181,21 @@ def gen_case(rnd, cname, prop, shape=None, mask_p=None):
         p["Weights"] = [rnd.choice(pool) for _ in range(k)]
         if prop == "C07" and rnd.random() < 0.05 and k >= 2:   # zero-sum weights
             p["Weights"][-1] = -sum(p["Weights"][:-1])
+        if force_dt in ("DUInt8", "DInt16"):
+            p["Weights"] = [rnd.choice([1, 2, 3, 0.5, 0]) for _ in range(k)]          # products stay far inside the narrow type
+        if zero_weight and k >= 2 and not errorish:
+            # a weight of exactly 0 at a later position, and a cell that is missing in that input only: the cell is missing in the result
+            j = rnd.randrange(1, k)
+            p["Weights"][j] = 0
+            if all(a.size for a in arrays) and len(set(a.shape for a in arrays)) == 1:
+                for i, a in enumerate(arrays):
+                    m = numpy.ma.getmaskarray(a).copy()
+                    m.reshape(-1)[0] = (i == j)
+                    arrays[i] = numpy.ma.array(numpy.ma.getdata(a), mask=m)
+        if any(d in ("DUInt", "DUInt8") for d in dts):
+            # unsigned data times a negative integer weight is promoted to float64 by numpy (right values, another element type):
+            # the element type of such results is outside what the model states, so these cases keep their weights non-negative
+            p["Weights"] = [abs(w) for w in p["Weights"]]
         if "DInt8" in dts:
             # an integer weight multiplies inside the narrow type (numpy semantics, legitimate wrap-around: 6 * 100 > 127); keep products in range
             p["Weights"] = [(20 if w > 0 else -20) if abs(w) > 20 else w for w in p["Weights"]]
@@ -231,6 +250,10 @@ def gen_case(rnd, cname, prop, shape=None, mask_p=None):
             p["TrueThreshold"] = rnd.choice([0, 0.0]) if rnd.random() < 0.15 else rnum(rnd)
         if rnd.random() < 0.7:
             p["FalseThreshold"] = rnd.choice([0, 0.0]) if rnd.random() < 0.15 else rnum(rnd)
+        if force_dt is not None and rnd.random() < 0.7:     # integer thresholds inside the data range of an integer raster
+            for kk in ("TrueThreshold", "FalseThreshold"):
+                if kk in p:
+                    p[kk] = rnd.randint(0, 6)
         r = rnd.random()
         if r < 0.3:
             p["Direction"] = "LowToHigh"
@@ -333,7 +356,7 @@ def main():
                 if cname == "FuzzySelectedUnion":
                     plist = [{"TruestOrFalsest": t, "NumberToConsider": kk} for t in ("Truest", "Falsest") for kk in range(1, k + 1)]
                 elif cname == "FuzzyWeightedUnion":
-                    plist = [{"Weights": w} for w in ([[1] * k, [1, 2, 3][:k], [0.5, 2, 1.5][:k], [2, -1, 0.25][:k]])]
+                    plist = [{"Weights": w} for w in ([[1] * k, [1, 2, 3][:k], [0.5, 2, 1.5][:k], [2, -1, 0.25][:k], [1, 0, 2][:k], [0, 0, 1][:k]])]
                 for chunk in range(0, len(tuples), 36):
                     tp = tuples[chunk:chunk + 36]
                     arrays = []
@@ -352,6 +375,27 @@ def main():
                         jobs.append((cname, g[0], g[1]))
                         break
         n += len(jobs)
+    # stratified part of every stream: each command once per unusual element type, each weighted command with a zero weight
+    before = len(jobs)
+    for cname in pool:
+        for fd in ("DUInt", "DUInt8", "DInt16"):
+            if cname in cc.FUZZY_IN or (fd != "DUInt" and cname == "Multiply"):
+                continue
+            want = 3 if OWNER.get(cname) == prop else 1
+            for _ in range(8):
+                g = gen_case(rnd, cname, prop, force_dt=fd, mask_p=rnd.choice([0.0, 0.3]))
+                if g is not None:
+                    jobs.append((cname, g[0], g[1]))
+                    want -= 1
+                    if want == 0:
+                        break
+        if cname in ("WeightedSum", "WeightedMean", "FuzzyWeightedUnion"):
+            for _ in range(3):
+                g = gen_case(rnd, cname, prop, mask_p=0.2, zero_weight=True)
+                if g is not None:
+                    jobs.append((cname, g[0], g[1]))
+    dist["stratified_cases"] = len(jobs) - before
+    n += len(jobs) - before
     while len(jobs) < n:
         cname = rnd.choice(pool)
         g = gen_case(rnd, cname, prop)
@@ -476,6 +520,29 @@ def main():
             if not same and not (o[0] == "err" and o[1] in ("MixedArrayShapes",)):
                 fails.append({"sig": "%s:order:%s" % (prop, cname), "what": "%s gives %s for one input order and %s for another" % (cname, summarize(o), summarize(o2)), "replay": dict(replay, other_order=perm)})
     if prop == "C04":
+        # a fuzzy result stays in [-1, +1] for as long as it exists: after every command that CONSUMES fuzzy results has run, its
+        # inputs (the results of other fuzzy commands) are still what they were
+        dist["consumed_fuzzy_inputs"] = 0
+        for cname in sorted(cc.FUZZY_IN):
+            for _ in range(max(6, n // 40)):
+                g = gen_case(rnd, cname, "C06")
+                if g is None or not g[0]:
+                    continue
+                arrays, p = g
+                before = [cc.canon(a) for a in arrays]
+                rep0 = describe(cname, arrays, p)
+                o = cc.run_impl(cname, arrays, p)
+                evaluations += 1
+                dist["consumed_fuzzy_inputs"] += len(arrays)
+                for k, (a, b) in enumerate(zip(arrays, before)):
+                    after = cc.canon(a)
+                    outside = [float(v) for v in after["cells"] if v is not None and not isinstance(v, str) and not (-1 <= v <= 1)]
+                    if outside or after != b:
+                        fails.append({"sig": "C04:range-after-consumption:%s" % cname,
+                                      "what": "after %s has run, the fuzzy result it was given as input %d holds %s (it held %s)" % (
+                                          cname, k, [None if v is None else float(v) for v in after["cells"]][:8], [None if v is None else float(v) for v in b["cells"]][:8]),
+                                      "replay": dict(rep0, observe="the inputs after the command has run")})
+                        break
         # floating-point stream (oracle only, not compared with the exact model): decimal, non-dyadic data, thresholds and
         # control points, with cells lying exactly on control points -- where rounding can push an unclamped line past +-1
         RAWKEYS = ("TrueThreshold", "FalseThreshold", "RawValues")
@@ -511,6 +578,42 @@ def main():
                     if bad or any(isinstance(v, str) for v in c["cells"]):
                         fails.append({"sig": "C04:range:%s" % cname, "what": "%s returned values outside [-1, 1] (floating-point overshoot): %r" % (cname, bad[:5]),
                                       "replay": describe(cname, arrays, p)})
+    if prop == "C05":
+        # large rasters: a grid made of many copies of a small block gives that many copies of the block's result (cells are
+        # computed independently; whole-array statistics are the same for the block and for the grid), whatever its size
+        dist["large_rasters"] = 0
+        for cname in FOPS + ["Sum", "Mean", "Multiply", "Minimum", "CvtToFuzzy", "CvtToFuzzyCurve", "NormalizeCat"]:
+            g = None
+            for _ in range(10):
+                g = gen_case(rnd, cname, "C06" if cname in FOPS else prop, shape=(3, 5), mask_p=0.3)
+                if g is not None and g[0] and len(set(a.shape for a in g[0])) == 1:
+                    break
+            if g is None or not g[0]:
+                continue
+            blocks, p = g
+            k = len(blocks)
+            reps = (4300000 // (15 * max(k, 1))) // 3 * 3 + 3 + 1      # layers x cells just above 4M, rows not a round number
+            if os.environ.get("VERIF_TIER") != "thorough" and cname not in ("FuzzyXOr", "FuzzySelectedUnion", "FuzzyUnion", "Sum", "CvtToFuzzy"):
+                reps = 7
+            big = [numpy.ma.array(numpy.tile(numpy.ma.getdata(a), (reps, 1)), mask=numpy.tile(numpy.ma.getmaskarray(a), (reps, 1))) for a in blocks]
+            o1 = run_impl(cname, blocks, p)
+            o2 = run_impl(cname, big, p)
+            evaluations += 2
+            dist["large_rasters"] += 1
+            if o1[0] != "ok":
+                continue
+            ok = o2[0] == "ok" and isinstance(o2[1], numpy.ndarray) and o2[1].shape == big[0].shape
+            if ok:
+                want_m = numpy.tile(numpy.ma.getmaskarray(o1[1]), (reps, 1))
+                want_d = numpy.tile(numpy.ma.getdata(o1[1]), (reps, 1))
+                got_m, got_d = numpy.ma.getmaskarray(o2[1]), numpy.ma.getdata(o2[1])
+                ok = numpy.array_equal(want_m, got_m) and numpy.allclose(want_d[~want_m], got_d[~want_m], rtol=1e-12, atol=1e-12, equal_nan=True)
+            if not ok:
+                fails.append({"sig": "C05:large-raster:%s" % cname,
+                              "what": "%s on a %d x 5 grid made of %d copies of a 3 x 5 block does not give %d copies of the block's result: %s" % (
+                                  cname, 3 * reps, reps, reps, summarize(o2) if o2[0] != "ok" or not isinstance(o2[1], numpy.ndarray) else "shape %s, %d cells differ" % (
+                                      o2[1].shape, -1 if o2[1].shape != big[0].shape else int((numpy.ma.getmaskarray(o2[1]) != numpy.tile(numpy.ma.getmaskarray(o1[1]), (reps, 1))).sum()))),
+                              "replay": dict(describe(cname, blocks, p), grid="the inputs tiled %d times along the first axis" % reps)})
     files = []
     CH = 150
     for i in range(0, len(cases), CH):
